@@ -324,4 +324,15 @@ Proof.
   rewrite Hcalls, Hst. unfold ev_calls. cbn [rev]. rewrite <- !app_assoc. cbn [app]. reflexivity.
 Qed.
 
+(* the step law at every loop head of a run *)
+Lemma crun_law : forall t s l t' s', crun t s l t' s' -> cgood g rate rstats s ->
+  cinv g rate s' /\
+  forall u, In u (gnodes g) -> 0 < total_rate g rate (cstat s') ->
+    prob (fun o => N.eqb (fst o) u) (law (jump choice s')) == rate (cstat s') u / total_rate g rate (cstat s').
+Proof.
+  intros t s l t' s' H Hg. destruct (crun_log t s l t' s' H Hg) as [evs [_ [Hg' _]]].
+  pose proof (cg_inv g rate rstats s' Hg') as Hi. split; [exact Hi|].
+  intros u Hu Hpos. exact (jump_law g rate choice Hnd rate_nonneg s' u Hi Hu Hpos).
+Qed.
+
 End CX.
